@@ -1,4 +1,5 @@
 import OciModel.Ref
+import OciModel.Generated.RefRe
 namespace OciModel.Driver.Ref
 open OciModel OciModel.Ref
 
@@ -29,6 +30,20 @@ def drive : List String → String
       | "roundtrip" => showRef (parseRelative (print ⟨h, r, t, d⟩))
       | _ => "bad-op"
     | _, _, _, _ => "bad-op"
+  | _ => "bad-op"
+
+/-- `rere host|repo|ref <s>`: the regenerated syntax trees of ociref's three patterns run by the derivative
+matcher (`matcher_correct`: it decides `lang`). -/
+def driveRe : List String → String
+  | [op, s] =>
+    match Hex.decodeTok s with
+    | none => "bad-op"
+    | some b =>
+      match op with
+      | "host" => b01 (OciModel.Generated.RefRe.hostPatRe.matches b)
+      | "repo" => b01 (OciModel.Generated.RefRe.repoPatRe.matches b)
+      | "ref" => b01 (OciModel.Generated.RefRe.referencePatRe.matches b)
+      | _ => "bad-op"
   | _ => "bad-op"
 
 end OciModel.Driver.Ref
